@@ -73,7 +73,7 @@ def helpers(ctx):
     f = ctx.anchor(CORE + "keys::PublicKeyPackage::<C>::from_commitment")
     if f:
         v = FnView.get(P, f)
-        oks = [v.cx.operand(rv["ops"][0]) for (b, k, rv) in ret_writes(f) if k == "ok"]
+        oks = ok_values(f, v)
         good = len(oks) == 1
         if good:
             vs = get_field(oks[0], "verifying_shares")
@@ -111,7 +111,7 @@ def helpers(ctx):
     f = None if ctx.core_only else ctx.anchor("<frost_secp256k1_tr::Secp256K1Sha256TR as frost_core::traits::Ciphersuite>::post_dkg")
     if f:
         v = FnView.get(P, f)
-        oks = [v.cx.operand(rv["ops"][0]) for (b, k, rv) in ret_writes(f) if k == "ok"]
+        oks = ok_values(f, v)
         none = ("agg", "adt", "core::option::Option", "None", ())
         good = len(oks) == 1 and oks[0][0] == "agg" and all(
             is_call(x, name="tweak") and x[2][0] == ("arg", i + 1) and x[2][1] == none for i, (_, x) in enumerate(oks[0][4]))
@@ -120,7 +120,7 @@ def helpers(ctx):
     f = ctx.anchor(CORE + "traits::Ciphersuite::post_dkg")
     if f:
         v = FnView.get(P, f)
-        oks = [v.cx.operand(rv["ops"][0]) for (b, k, rv) in ret_writes(f) if k == "ok"]
+        oks = ok_values(f, v)
         ctx.check(len(oks) == 1 and oks[0] == ("agg", "tuple", None, None, (("0", ("arg", 1)), ("1", ("arg", 2)))), "AGREE", f.key,
                   "default-is-identity", "the default post_dkg must return both packages unchanged", f.loc)
 
